@@ -880,7 +880,7 @@ func init() {
 		"runtime.SetFinalizer": func(fr *frame, a []value) value {
 			return nil
 		},
-		"time.Sleep": func(fr *frame, a []value) value { sched.yield(nil); return nil },
+		"time.Sleep": func(fr *frame, a []value) value { sched.sleepYield(); return nil },
 		"os.Exit":    func(fr *frame, a []value) value { panic(exitPanic(asInt64(a[0]))) },
 		"os.Getenv":  func(fr *frame, a []value) value { return "" },
 		"internal/bytealg.IndexByteString": func(fr *frame, a []value) value {
